@@ -547,6 +547,7 @@ def run(chk, fb, tier):
     from props import C06
 
     C06.rule_variants(chk, fb, "C01.a.variants")
+    C06.rule_empty_arms(chk, fb, "C01.a.empty")
     chk.assume("a 64-bit content hash stands in for equality of shared strings (collision-free)")
     chk.assume("quick-xml's BytesText::new / partial_escape / unescape are mutually inverse on the characters they handle")
     chk.note("not decided: identity of f64 through Display/parse, Unicode fidelity through quick-xml, equality of reloaded cell sets (value-level round trip)")
